@@ -84,6 +84,11 @@ DNext == \E k \in DOMAIN task : DRead(k) \/ DPick(k) \/ DProbe(k) \/ DWrite(k)
 -----------------------------------------------------------------------------
 (* the property on the design: whatever a task is about to write is a permitted assignment *)
 DesignSafe == \A k \in DOMAIN task : task[k].pc = "write" => WriteOK(task[k].pos, task[k].cand)
+(* an address the master wrote is held by one terminal only; several terminals may carry the
+   same address from before (terminals taken over from elsewhere): that is not the master's doing,
+   but such an address answers a probe (working counter 2, 3, ..) like any other *)
+UniqueAssigned == \A t, u \in Terms : (t # u /\ conf[t] \in written) => conf[t] # conf[u]
+(* if the pre-assigned addresses were pairwise distinct, all configured addresses stay so *)
 Unique == \A t, u \in Terms : (t # u /\ conf[t] # 0) => conf[t] # conf[u]
 WrittenInRange == \A a \in written : InRange(a)
 UsedCovers == (written \cup answered) \subseteq used
